@@ -370,9 +370,14 @@ impl Type {
                         other_id_gen,
                     )
             }
-            (Reference(self_reference), Reference(other_reference)) => self_reference
-                .inner
-                ._is_equivalent_to(&other_reference.inner, self_id_gen, other_id_gen),
+            (Reference(self_reference), Reference(other_reference)) => {
+                self_reference.is_mutable == other_reference.is_mutable
+                    && self_reference.inner._is_equivalent_to(
+                        &other_reference.inner,
+                        self_id_gen,
+                        other_id_gen,
+                    )
+            }
             (Tuple(self_tuple), Tuple(other_tuple)) => {
                 if self_tuple.elements.len() != other_tuple.elements.len() {
                     return false;
